@@ -6,7 +6,7 @@ from lib import gpgen
 from py2v import gen
 
 PROP = "C04"
-PROPS_FILES = ["Props/C04_kernels.v", "Props/C04_acq.v", "Props/C04_gp.v"]
+PROPS_FILES = ["Props/C04_kernels.v", "Props/C04_acq.v", "Props/C04_gp.v", "Props/C04_poly.v"]
 ASSUMPTIONS = [
   "real arithmetic (Coq R, Coquelicot is_derive); rounding outside the model",
   "log marginal likelihood gradient is PARTIAL: Jacobi's formula d log det K = tr(K^-1 dK) and d(r' K^-1 r) = -(a' dK a) are hypotheses (no determinant calculus over R available)",
@@ -192,6 +192,12 @@ def gen_input(rng):
   if fam == "maf" and len(gi["points"][0]) < 2:
     inp["family"] = "ei"
   return inp
+
+
+def correspondence(ctx):
+  """Tie K for the one hand-written model in this property's cone: the polynomial builders of python_utils (Model/Poly.v)."""
+  from lib import poly_corr
+  return poly_corr.correspondence(ctx)
 
 
 def search(ctx, hints, broken):
